@@ -189,6 +189,9 @@ pub struct Gen<'a> {
     pub labels: Vec<&'static str>,
     /// number of distinct literal ranges used (kept <= 6 so range identity is never observable)
     ranges: Vec<(i64, i64)>,
+    /// this program draws its literal ranges from a large pool, so that more than the 8 ranges the
+    /// interpreter's range cache holds are alive at once (decided by the last byte of the case)
+    many_ranges: bool,
     trace_id: usize,
     /// globals that functions may use before the program defines them (late binding)
     late_pending: Vec<String>,
@@ -232,6 +235,7 @@ impl<'a> Gen<'a> {
             depth: 0,
             labels: Vec::new(),
             ranges: Vec::new(),
+            many_ranges: data.last().map(|b| b % 6 == 0).unwrap_or(false),
             trace_id: 0,
             late_pending: Vec::new(),
             late_defined: Vec::new(),
@@ -314,6 +318,19 @@ impl<'a> Gen<'a> {
     fn literal_range(&mut self) -> Expr {
         // a small per-program pool of literal ranges
         let pool: [(i64, i64); 6] = [(0, 3), (1, 4), (0, 0), (3, 0), (-2, 2), (0, 5)];
+        if self.many_ranges {
+            // any of 63 ranges: a range that is still in use (a loop running over it, a variable
+            // holding it) then regularly sees eight younger ones built in the meantime
+            let a = self.rd.below(7) as i64 - 2;
+            let b = self.rd.below(9) as i64 - 2;
+            if !self.ranges.contains(&(a, b)) {
+                self.ranges.push((a, b));
+                if self.ranges.len() == 9 {
+                    self.label("more_than_8_ranges");
+                }
+            }
+            return Expr::range(Expr::num(a as f64), Expr::num(b as f64));
+        }
         let r = if self.ranges.len() >= 6 {
             let i = self.rd.below(self.ranges.len());
             self.ranges[i]
